@@ -52,14 +52,27 @@ class RepeatingEventBase(EventBase):
                 presentation_time += self.interval
         return stream
 
+    def has_valid_schedule(self) -> bool:
+        """
+        Can the requested schedule be expressed in emsg boxes?
+        A schedule without a positive interval does not describe any event, and
+        the other values have to fit the fields of the box.
+        """
+        return (
+            self.interval > 0 and
+            0 < self.timescale <= 0xFFFFFFFF and
+            0 <= self.duration <= 0xFFFFFFFF and
+            self.start >= 0 and
+            self.count >= 0 and
+            self.version in {0, 1})
+
     @abstractmethod
     def get_manifest_event_payload(self, index, presentation_time) -> str:
         return ""
 
     def create_emsg_boxes(self, segment_num, mod_segment, moof,
                           representation, **kwargs) -> list[EventMessageBox]:
-        if not self.inband or self.interval <= 0 or self.timescale <= 0:
-            # a schedule without a positive interval does not describe any event
+        if not self.inband or not self.has_valid_schedule():
             return []
         # start and end time of the fragment (representation timebase)
         seg_start = moof.traf.tfdt.base_media_decode_time
